@@ -1,12 +1,257 @@
 /-
-C09 — database operations are atomic under statement failures and process death (placeholder; theorems follow).
+C09 — database operations are atomic under statement failures and process death.
+
+All statements are about `runOp db mem op fault : Result` of `PgVerif.Model.Store` (the statement-level model of
+`with_connection` + the public write operations, with fault injection at statement index `k`).
+The program logic used in the proofs is in `PgVerif.Lemmas.Store`.
 -/
 import PgVerif.Model.Store
+import PgVerif.Lemmas.Store
+import Mathlib.Tactic
 
 namespace PgVerif.C09
-open PgVerif.Model.Store
+open PgVerif.Model.Store PgVerif.StoreL
 
 /-- the empty store is well formed -/
 theorem empty_wellFormed : Db.empty.wellFormed = true := by decide
+
+/-! ### the theorems -/
+
+/-- A call that ends in a `ParsingError` or in any other exception leaves the committed file content unchanged
+(for every operation and every fault). -/
+theorem failed_call_changes_nothing (db : Db) (mem : Mem) (op : Op) (fault : Option (Nat × FaultKind)) :
+    (runOp db mem op fault).out = .parsingError ∨ (runOp db mem op fault).out = .otherError →
+      (runOp db mem op fault).db = db := by
+  rw [runOp_eq]
+  generalize exec (prog op) ⟨db, mem, 0, fault⟩ = rw
+  unfold finish
+  rcases rw.1 with e | a
+  · cases e <;> simp
+  · simp only
+    split_ifs <;> simp
+
+/-- The committed content, the outcome and the number of statements do not depend on the process-global lists
+`MATERIAL_LIST` / `ADSORBATE_LIST` (they are written, never read). -/
+theorem runOp_db_independent_of_mem (db : Db) (mem₁ mem₂ : Mem) (op : Op) (f : Option (Nat × FaultKind)) :
+    (runOp db mem₁ op f).db = (runOp db mem₂ op f).db ∧ (runOp db mem₁ op f).out = (runOp db mem₂ op f).out := by
+  rw [runOp_eq, runOp_eq]
+  rcases rel_prog (fun b => memR_stmt b) memR_modifyMem op ⟨db, mem₁, 0, f⟩ ⟨db, mem₂, 0, f⟩ ⟨rfl, rfl, rfl⟩ with
+    ⟨_, h, _⟩ | ⟨h1, h2, h3, _⟩
+  · exact h.elim
+  · have := finish_congr db mem₁ mem₂ f _ _ h1 h2 h3
+    exact ⟨this.1, this.2.1⟩
+
+
+/-- `fault_not_hit`: if the body, run with the fault plan `(k, kind)`, returns normally, then its final working state
+(working copy, statement counter, in-memory lists) is exactly the one of the fault-free run. -/
+theorem fault_not_hit (db : Db) (mem : Mem) (op : Op) (k : Nat) (kind : FaultKind)
+    (h : (exec (prog op) ⟨db, mem, 0, some (k, kind)⟩).1 = .ok ()) :
+    (exec (prog op) ⟨db, mem, 0, none⟩).1 = .ok () ∧
+    (exec (prog op) ⟨db, mem, 0, some (k, kind)⟩).2.db = (exec (prog op) ⟨db, mem, 0, none⟩).2.db ∧
+    (exec (prog op) ⟨db, mem, 0, some (k, kind)⟩).2.n = (exec (prog op) ⟨db, mem, 0, none⟩).2.n ∧
+    (exec (prog op) ⟨db, mem, 0, some (k, kind)⟩).2.mem = (exec (prog op) ⟨db, mem, 0, none⟩).2.mem := by
+  rcases rel_prog (fun b => faultR_stmt k kind b) (faultR_modifyMem k kind) op
+      ⟨db, mem, 0, some (k, kind)⟩ ⟨db, mem, 0, none⟩ ⟨rfl, rfl, rfl, rfl, rfl⟩ with ⟨e, _, he⟩ | ⟨h1, h2, h3, h4, _⟩
+  · rw [h] at he; cases he
+  · exact ⟨h1 ▸ h, h2, h3, h4⟩
+
+/-- **Atomicity**: whatever statement a fault hits and whatever its kind, the committed file content afterwards is either
+the content before the call or the content the fault-free call commits. -/
+theorem atomic (db : Db) (mem : Mem) (op : Op) (k : Nat) (kind : FaultKind) :
+    (runOp db mem op (some (k, kind))).db = db ∨
+      (runOp db mem op (some (k, kind))).db = (runOp db mem op none).db := by
+  rw [runOp_eq, runOp_eq]
+  rcases hr : (exec (prog op) ⟨db, mem, 0, some (k, kind)⟩).1 with e | a
+  · exact Or.inl (finish_error_db _ _ _ _ e hr)
+  · obtain ⟨h0, h1, _, _⟩ := fault_not_hit db mem op k kind hr
+    rw [finish_none_ok _ _ _ h0]
+    rcases finish_ok_db db mem (some (k, kind)) _ hr with h | h
+    · exact Or.inl h
+    · exact Or.inr (h.trans h1)
+
+
+/-! ### a fault inside the body is always hit -/
+
+/-- unary invariant "the fault plan is `(k, kind)` and statement `k` has not been issued yet", as a relation -/
+def notYet (k : Nat) (kind : FaultKind) (w w' : Work) : Prop := w = w' ∧ w.fault = some (k, kind) ∧ w.n ≤ k
+
+lemma notYet_stmt (k : Nat) (kind : FaultKind) {β : Type} (body : Db → Except SqlErr (β × Db)) :
+    Rel (fun _ => True) (notYet k kind) (stmt body) := by
+  rintro ⟨db, mem, n, f⟩ _ ⟨rfl, h1, h2⟩
+  simp only at h1 h2
+  subst h1
+  rw [exec_stmt]
+  simp only
+  rcases Nat.lt_or_eq_of_le h2 with hlt | rfl
+  · cases injected (some (k, kind)) n with
+    | some e => exact Or.inl ⟨e, trivial, rfl⟩
+    | none =>
+      simp only
+      cases body db with
+      | error e => exact Or.inl ⟨e, trivial, rfl⟩
+      | ok p =>
+        obtain ⟨r, d⟩ := p
+        simp only
+        split
+        · exact Or.inl ⟨_, trivial, rfl⟩
+        · exact Or.inr (by simp [notYet]; omega)
+  · left
+    cases kind
+    case exitAfter =>
+      have : injected (some (n, FaultKind.exitAfter)) n = none := rfl
+      rw [this]
+      simp only
+      cases body db with
+      | error e => exact ⟨e, trivial, rfl⟩
+      | ok p => exact ⟨.exit, trivial, by simp⟩
+    all_goals simp [injected]
+
+lemma notYet_modifyMem (k : Nat) (kind : FaultKind) (f : Mem → Mem) : Rel (fun _ => True) (notYet k kind) (modifyMem f) := by
+  rintro w _ ⟨rfl, h1, h2⟩
+  exact Or.inr ⟨rfl, rfl, h1, h2⟩
+
+/-- if the body returns normally under the fault plan `(k, kind)`, fewer than `k + 1` statements were issued -/
+theorem ok_run_stops_before_fault (db : Db) (mem : Mem) (op : Op) (k : Nat) (kind : FaultKind)
+    (h : (exec (prog op) ⟨db, mem, 0, some (k, kind)⟩).1 = .ok ()) :
+    (exec (prog op) ⟨db, mem, 0, some (k, kind)⟩).2.n ≤ k := by
+  rcases rel_prog (fun b => notYet_stmt k kind b) (notYet_modifyMem k kind) op
+      ⟨db, mem, 0, some (k, kind)⟩ _ ⟨rfl, rfl, Nat.zero_le _⟩ with ⟨e, _, he⟩ | ⟨_, _, _, h3⟩
+  · rw [h] at he; cases he
+  · exact h3
+
+
+/-- A fault of ANY kind planted at a statement the fault-free run issues (`k < stmtCount`) makes the call fail or die, and
+nothing is committed. -/
+theorem fault_inside_body_fails (db : Db) (mem : Mem) (op : Op) (k : Nat) (kind : FaultKind)
+    (hk : k < stmtCount db mem op) :
+    (runOp db mem op (some (k, kind))).out ≠ .ok ∧ (runOp db mem op (some (k, kind))).db = db := by
+  rw [stmtCount_eq] at hk
+  rw [runOp_eq]
+  rcases hr : (exec (prog op) ⟨db, mem, 0, some (k, kind)⟩).1 with e | a
+  · exact ⟨finish_error_out _ _ _ _ e hr, finish_error_db _ _ _ _ e hr⟩
+  · obtain ⟨_, _, h2, _⟩ := fault_not_hit db mem op k kind hr
+    have := ok_run_stops_before_fault db mem op k kind hr
+    omega
+
+/-- If the process dies during the call, the file holds either the content before the call, or — only when death strikes
+right after the commit (`exitAfter` at index = number of statements issued = `stmtCount`) — the working copy of the
+completed body, which is exactly what the fault-free call commits. -/
+theorem death_commits_nothing_or_everything (db : Db) (mem : Mem) (op : Op) (fault : Option (Nat × FaultKind))
+    (hd : (runOp db mem op fault).out = .died) :
+    (runOp db mem op fault).db = db ∨
+      ∃ k, fault = some (k, .exitAfter) ∧ k = (runOp db mem op fault).stmts ∧ k = stmtCount db mem op ∧
+        (exec (prog op) ⟨db, mem, 0, fault⟩).1 = .ok () ∧
+        (runOp db mem op fault).db = (exec (prog op) ⟨db, mem, 0, fault⟩).2.db ∧
+        (runOp db mem op fault).db = (runOp db mem op none).db := by
+  rcases hr : (exec (prog op) ⟨db, mem, 0, fault⟩).1 with e | a
+  · left; rw [runOp_eq]; exact finish_error_db _ _ _ _ e hr
+  · by_cases c1 : fault = some ((exec (prog op) ⟨db, mem, 0, fault⟩).2.n, .exitBefore)
+    · left; rw [runOp_eq]; unfold finish; rw [hr]; simp only; rw [if_pos c1]
+    · by_cases c2 : fault = some ((exec (prog op) ⟨db, mem, 0, fault⟩).2.n, .exitAfter)
+      · right
+        have hfin : runOp db mem op fault =
+            ⟨(exec (prog op) ⟨db, mem, 0, fault⟩).2.db, mem, .died, (exec (prog op) ⟨db, mem, 0, fault⟩).2.n⟩ := by
+          rw [runOp_eq]; unfold finish; rw [hr]; simp only; rw [if_neg c1, if_pos c2]
+        refine ⟨_, c2, ?_, ?_, rfl, ?_, ?_⟩
+        · rw [hfin]
+        · rw [stmtCount_eq]
+          generalize hn : (exec (prog op) ⟨db, mem, 0, fault⟩).2.n = n at c2
+          subst c2
+          rw [← hn]
+          exact (fault_not_hit db mem op n _ hr).2.2.1
+        · rw [hfin]
+        · rw [hfin]
+          generalize hn : (exec (prog op) ⟨db, mem, 0, fault⟩).2.n = n at c2
+          subst c2
+          obtain ⟨h0, h1, _, _⟩ := fault_not_hit db mem op n _ hr
+          rw [runOp_eq, finish_none_ok _ _ _ h0]
+          exact h1
+      · exfalso
+        rw [runOp_eq] at hd
+        unfold finish at hd
+        rw [hr] at hd
+        simp only at hd
+        rw [if_neg c1, if_neg c2] at hd
+        cases hd
+
+/-- Death before the commit commits nothing: `exitBefore` at any index, or `exitAfter` at an index smaller than the number of
+statements issued. -/
+theorem death_before_commit (db : Db) (mem : Mem) (op : Op) (k : Nat) (kind : FaultKind)
+    (hd : (runOp db mem op (some (k, kind))).out = .died)
+    (hk : kind = .exitBefore ∨ (kind = .exitAfter ∧ k < (runOp db mem op (some (k, kind))).stmts)) :
+    (runOp db mem op (some (k, kind))).db = db := by
+  rcases death_commits_nothing_or_everything db mem op _ hd with h | ⟨k', h1, h2, _⟩
+  · exact h
+  · cases h1
+    rcases hk with hk | ⟨_, hk⟩
+    · cases hk
+    · omega
+
+/-- the same with the fault position measured against the fault-free run, and without assuming the outcome:
+`exitBefore` at any index `≤ stmtCount` (the commit included) and `exitAfter` at any index `< stmtCount` commit nothing. -/
+theorem death_before_commit' (db : Db) (mem : Mem) (op : Op) (k : Nat) (kind : FaultKind)
+    (hk : (kind = .exitBefore ∧ k ≤ stmtCount db mem op) ∨ (kind = .exitAfter ∧ k < stmtCount db mem op)) :
+    (runOp db mem op (some (k, kind))).db = db := by
+  rcases hk with ⟨rfl, hk⟩ | ⟨rfl, hk⟩
+  · rcases Nat.lt_or_eq_of_le hk with hlt | heq
+    · exact (fault_inside_body_fails db mem op k _ hlt).2
+    · rw [runOp_eq]
+      rcases hr : (exec (prog op) ⟨db, mem, 0, some (k, .exitBefore)⟩).1 with e | a
+      · exact finish_error_db _ _ _ _ e hr
+      · obtain ⟨_, _, h2, _⟩ := fault_not_hit db mem op k _ hr
+        rw [stmtCount_eq] at heq
+        unfold finish
+        rw [hr]
+        simp only
+        rw [if_pos (by rw [h2, ← heq])]
+  · exact (fault_inside_body_fails db mem op k _ hk).2
+
+/-- **Retry**: when the call did not commit, repeating the same operation (now without fault) on the resulting state —
+whatever the failed call left in the process-global lists — commits exactly what the fault-free call would have
+committed in the first place, with the same outcome. -/
+theorem retry_after_failure (db : Db) (mem : Mem) (op : Op) (fault : Option (Nat × FaultKind))
+    (h : (runOp db mem op fault).db = db) :
+    (runOp (runOp db mem op fault).db (runOp db mem op fault).mem op none).db = (runOp db mem op none).db ∧
+    (runOp (runOp db mem op fault).db (runOp db mem op fault).mem op none).out = (runOp db mem op none).out := by
+  rw [h]
+  exact runOp_db_independent_of_mem db _ mem op none
+
+/-- in particular a retry after a failed call succeeds whenever the operation was valid in the first place -/
+theorem retry_succeeds (db : Db) (mem : Mem) (op : Op) (fault : Option (Nat × FaultKind))
+    (h : (runOp db mem op fault).out = .parsingError ∨ (runOp db mem op fault).out = .otherError)
+    (hv : (runOp db mem op none).out = .ok) :
+    (runOp (runOp db mem op fault).db (runOp db mem op fault).mem op none).out = .ok :=
+  ((retry_after_failure db mem op fault (failed_call_changes_nothing db mem op fault h)).2).trans hv
+
+/-- **Prior content intact** (failed or dead-before-commit runs): unless the call returned normally or died right after the
+commit, the file content is unchanged — so every row of every table is still there. -/
+theorem prior_content_intact (db : Db) (mem : Mem) (op : Op) (fault : Option (Nat × FaultKind))
+    (h : (runOp db mem op fault).out ≠ .ok)
+    (hc : ∀ k, fault = some (k, .exitAfter) → k ≠ (runOp db mem op fault).stmts) :
+    (runOp db mem op fault).db = db := by
+  rcases ho : (runOp db mem op fault).out with _ | _ | _ | _
+  · exact absurd ho h
+  · exact failed_call_changes_nothing db mem op fault (Or.inl ho)
+  · exact failed_call_changes_nothing db mem op fault (Or.inr ho)
+  · rcases death_commits_nothing_or_everything db mem op fault ho with h' | ⟨k, h1, h2, _⟩
+    · exact h'
+    · exact absurd h2 (hc k h1)
+
+/-- row-level reading of `prior_content_intact` -/
+theorem prior_rows_intact (db : Db) (mem : Mem) (op : Op) (fault : Option (Nat × FaultKind))
+    (h : (runOp db mem op fault).out ≠ .ok)
+    (hc : ∀ k, fault = some (k, .exitAfter) → k ≠ (runOp db mem op fault).stmts) :
+    (∀ r, r ∈ db.ads → r ∈ (runOp db mem op fault).db.ads) ∧
+    (∀ r, r ∈ db.adsProps → r ∈ (runOp db mem op fault).db.adsProps) ∧
+    (∀ r, r ∈ db.adsTypes → r ∈ (runOp db mem op fault).db.adsTypes) ∧
+    (∀ r, r ∈ db.mats → r ∈ (runOp db mem op fault).db.mats) ∧
+    (∀ r, r ∈ db.matProps → r ∈ (runOp db mem op fault).db.matProps) ∧
+    (∀ r, r ∈ db.matTypes → r ∈ (runOp db mem op fault).db.matTypes) ∧
+    (∀ r, r ∈ db.isoTypes → r ∈ (runOp db mem op fault).db.isoTypes) ∧
+    (∀ r, r ∈ db.isos → r ∈ (runOp db mem op fault).db.isos) ∧
+    (∀ r, r ∈ db.isoProps → r ∈ (runOp db mem op fault).db.isoProps) ∧
+    (∀ r, r ∈ db.isoData → r ∈ (runOp db mem op fault).db.isoData) := by
+  rw [prior_content_intact db mem op fault h hc]
+  simp
 
 end PgVerif.C09
